@@ -31,22 +31,32 @@ import common                                  # noqa: E402
 import pyfacts                                 # noqa: E402
 
 ID = 'C08'
-LEAN_MODULES = ['Yaql.Props.C08', 'Yaql.Props.C08Gen']
+LEAN_MODULES = ['Yaql.Props.C08', 'Yaql.Props.C08Gen', 'Yaql.Props.C08EvalMono', 'Yaql.Props.C08EvalOff', 'Yaql.Props.C08Eval']
 REQUIRED_THEOREMS = ['Yaql.Props.C08.' + n for n in (
     'limit_pulls', 'limit_prefix', 'limit_endless_raises', 'unlimited_never_raises', 'limit_sized',
     'finalize_bounded', 'finalize_refuses', 'repeat_estimate_safe', 'repeat_nonpositive', 'repeat_estimate_safe_str',
     'memorize_bounded', 'quota_flow', 'quota_result', 'frozen_dict_measured', 'dict_set_checked')] + ['Yaql.Props.C08Gen.' + n for n in (
         'consumers_limited', 'producers_limited', 'frozen_dict_unmeasured_old', 'table_nonvacuous', 'sizes_ok', 'repeat_estimate_safe_now',
-        'repeat_estimate_safe_str_now', 'repeat_estimate_unsafe_old')]
+        'repeat_estimate_safe_str_now', 'repeat_estimate_unsafe_old')] + ['Yaql.Props.C08Eval.' + n for n in (
+            'evalL_off', 'runL_off', 'evalL_rel', 'runL_rel', 'evalL_refines', 'runL_refines', 'limits_monotone',
+            'limits_monotone_error', 'new_outcomes', 'quota_flow_eval', 'quota_flow_eval_bound', 'quota_refuses', 'quota_flow_let',
+            'quota_flow_ucall', 'quota_flow_receiver', 'limit_flow_iter', 'limit_sized_refuses', 'limitLazy_run',
+            'limit_flow_result')]
 TRUSTED = ['harness/gens/limitfacts.py: classification of parameter types (live `check` with a generator object) and '
            'of syntactic uses (AST walk, helper calls followed two levels); cross-checked by the dynamic sweep',
            'harness/gens/sizes.py: sys.getsizeof constants of the running CPython, linear shape verified on samples',
-           'sys.getsizeof as the measure of "size" (as the library itself uses it)']
+           'sys.getsizeof as the measure of "size" (as the library itself uses it)',
+           'Yaql/Model/EvalLimits.lean (hand-written: Eval + the two mechanisms) and harness/gens/evalsizes.py (None / bool / '
+           'int / dict-table / list(<generator>) sizes, the largest non-data object the engine measures), tied to the code '
+           'by part V; harness/evalgen.py + props/c04.py (program generator, renderer, parse-back check)']
 ASSUMPTIONS = ['a lazy sequence is an iterator given by item index -> item (finite or endless); pulling has no effect but '
                'producing the next item',
                'lists produced by `left * k` are allocated exactly; other lists may be over-allocated (their real size is '
                '>= the modelled one, which only makes the estimate larger)',
-               'quota_flow is proved for first-order call trees with abstract payloads (no full evaluator model here)',
+               'C08.quota_flow is about first-order call trees with abstract payloads; the C08Eval theorems are about the '
+               'instrumented C04 interpreter (fragment and out-of-domain cases of C04; sizes: shallow sys.getsizeof, '
+               'non-data objects between objMin and objMax, dicts whose keys are partly strings and floats / sets are "no '
+               'prediction" under a quota); part V exercises quotas >= objMax only',
                'the per-step checks inside distinct / groupBy / toDict / generate / memorize bound internal state that is '
                'never handed on; they are modelled (memorize_bounded) but not observable from outside']
 
